@@ -26,6 +26,45 @@ def ja3_event(hello, origin, expected=None):
     return ev
 
 
+def sweep(rep):
+    """code sweeps: every 16-bit code of the shape 0x?a?a (GREASE and its near misses) and every code 0..255, as
+    cipher suite, extension type and named group - after one-byte code points (psk modes, point formats) of the same
+    numbers have been parsed in this process, in case decoded code points are remembered anywhere"""
+    from cryptoparser.tls.subprotocol import TlsHandshakeClientHello
+    from cryptoparser.tls.ciphersuite import TlsCipherSuite
+    from cryptoparser.tls.grease import TlsInvalidTypeTwoByte, TlsInvalidTypeOneByte
+    from cryptoparser.tls.extension import (TlsExtensionUnparsed, TlsExtensionEllipticCurves, TlsExtensionECPointFormats,
+                                            TlsExtensionPskKeyExchangeModes, TlsPskKeyExchangeModeVector, TlsECPointFormatVector)
+    from cryptodatahub.tls.algorithm import TlsNamedCurve, TlsECPointFormat
+    events = []
+    # one-byte code points first
+    for vec in (TlsPskKeyExchangeModeVector, TlsECPointFormatVector):
+        for lo in (1, 86, 171):
+            body = bytes(range(lo, min(lo + 85, 256)))
+            call(vec.parse_exact_size, bytes([len(body)]) + body)
+    suites_by_code = {c.value.code: c for c in TlsCipherSuite}
+    curves_by_code = {c.value.code: c for c in TlsNamedCurve}
+    codes = sorted({(a << 12) | 0x0a00 | (b << 4) | 0x0a for a in range(16) for b in range(16)} | set(range(0, 256)) |
+                   {0x0a0b, 0x0b0a, 0x0b0b, 0xaaaa, 0xa0a0, 0x1a1b})
+    for c in codes:
+        try:
+            hello = TlsHandshakeClientHello(
+                cipher_suites=[suites_by_code.get(0x002f), suites_by_code.get(c) or TlsInvalidTypeTwoByte(c)],
+                extensions=[TlsExtensionUnparsed(TlsInvalidTypeTwoByte(c), bytearray(b'')),
+                            TlsExtensionEllipticCurves([curves_by_code.get(23), curves_by_code.get(c) or TlsInvalidTypeTwoByte(c)]),
+                            TlsExtensionECPointFormats([TlsECPointFormat.UNCOMPRESSED, TlsInvalidTypeOneByte(c % 256)])],
+                fallback_scsv=False, empty_renegotiation_info_scsv=False)
+            wire = bytes(hello.compose())
+        except Exception:  # pylint: disable=broad-except
+            continue
+        o, parsed, _ = call(TlsHandshakeClientHello.parse_exact_size, wire)
+        if o == 'ok':
+            e = ja3_event(parsed, 'sweep:0x%04x' % c)
+            if e:
+                events.append(e)
+    return events
+
+
 def run(rep):
     thorough = rep.tier == 'thorough'
     events = []
@@ -69,6 +108,7 @@ def run(rep):
             e = ja3_event(o, 'random')
             if e:
                 events.append(e)
+    events += sweep(rep)
     for e in events:
         rep.case(digest(e['wire']))
     rep.rule = ('client hellos: the 8160 constructible hellos of the TLC-enumerated domain (3 versions x 2 session ids x suite lists '
@@ -81,6 +121,9 @@ def run(rep):
     mism = 0
     for tup, ti, ei, e in judge.run(rep, 'Trace_TlsWire', list(enumerate(traces)), 'ja3', max_lines=1500):
         clause = tup[1]
+        if tup[0] == 'DEV':
+            rep.deviation('ja3|' + clause, 'one-byte GREASE values (RFC 8701 PSK mode values) are dropped from the point-format section')
+            continue
         rep.violation('TlsHandshakeClientHello.ja3|%s|ja3' % clause, 'ja3(): %s' % clause,
                       {'wire_hex': bytes(e['wire']).hex()[:400], 'ja3': e['ja3'], 'ja3_reparsed': e['ja3_reparsed'],
                        'published_algorithm_says': e.get('expected_by_tlc'), 'origin': e['origin']})
